@@ -84,6 +84,8 @@ def compare_path(scn, p, ev, inp, ref):
         w = ref["world"]
         addrs = sorted(set(w["balance"]) | set(scn["accounts"]) | {inp["caller"]})
         obs = p.observe(ev, addrs)
+        if obs.get("hash_offset_wraps"):
+            return None   # the input violates the hash-range assumption (a keccak-based location wraps around 2^256)
         for a, flat, v, transient, spelling in obs["storage"]:
             rv = (w["transient"] if transient else w["storage"]).get(a, {}).get(flat, 0)
             if v != rv:
